@@ -206,6 +206,37 @@ func init() {
 				}
 			}
 		}
+		// (1b) the same enumeration on coordinates that are not exact in binary: multiples of one tenth (k/10 as the
+		// nearest float64), every box with corners on 0.1..0.4 and every segment between grid points 0..0.5 (0..0.6
+		// thorough). In exact arithmetic nothing changes (the lattice is the same, ten times finer); in float64 a segment
+		// through a box corner meets the two sides a rounding error apart - the call must still return, and return the same
+		// pieces (projected to the lattice with a residual of 1e-7 lattice units).
+		{
+			const ST = 600
+			GT := c.pick(6, 7)
+			ptT := func(i int) [2]int { return [2]int{(i % GT) * 60, (i / GT) * 60} }
+			for x0 := 1; x0 <= 4; x0++ {
+				for x1 := x0 + 1; x1 <= 4; x1++ {
+					for y0 := 1; y0 <= 4; y0++ {
+						for y1 := y0 + 1; y1 <= 4; y1++ {
+							box := [4]int{x0 * 60, y0 * 60, x1 * 60, y1 * 60}
+							for open := 0; open < 2; open++ {
+								for a := 0; a < GT*GT; a++ {
+									for b := 0; b < GT*GT; b++ {
+										out := c07Call(c, "LineString", ST, box, [][][2]int{{ptT(a), ptT(b)}}, open, 0)
+										if (a+b)%5 == 0 {
+											for _, piece := range out {
+												c07Call(c, "LineString", ST, box, [][][2]int{piece}, open, 1)
+											}
+										}
+									}
+								}
+							}
+						}
+					}
+				}
+			}
+		}
 		// (2) seeded: paths of up to 12 vertices on a 9x9 grid (lattice 1/840), repeated vertices,
 		// runs along box edges, corner crossings; LineString, MultiLineString and Geometry entry points.
 		const S2 = 840
